@@ -592,12 +592,12 @@ func (db *SpecDB) ParseSpecFile(path, pkgPath string, trusted bool) error {
 		isHeader := false
 		switch word {
 		case "package", "func", "interface", "functype", "pure", "pred", "locs", "sweep", "axiom", "lemma", "ghost", "sort", "constglobal", "sentinel",
-			"requires", "ensures", "assigns", "decreases", "loop", "after", "before", "returns", "inline", "abstracted", "bitprecise", "nooverflow", "panics-if", "trusted", "noalloc", "prune", "maxpaths", "timeout", "noinline", "nosafety":
+			"requires", "ensures", "rejects", "assigns", "decreases", "loop", "after", "before", "returns", "inline", "abstracted", "bitprecise", "nooverflow", "panics-if", "trusted", "noalloc", "prune", "maxpaths", "timeout", "noinline", "nosafety":
 			isHeader = true
 		}
 		if !isHeader || strings.HasPrefix(word, "requires[") {
 			// continuation or tagged clause
-			if strings.HasPrefix(word, "requires[") || strings.HasPrefix(word, "ensures[") || strings.HasPrefix(word, "sweep[") || strings.HasPrefix(word, "assigns[") {
+			if strings.HasPrefix(word, "requires[") || strings.HasPrefix(word, "ensures[") || strings.HasPrefix(word, "sweep[") || strings.HasPrefix(word, "assigns[") || strings.HasPrefix(word, "rejects[") {
 				isHeader = true
 			}
 		}
@@ -765,7 +765,7 @@ func (db *SpecDB) ParseSpecFile(path, pkgPath string, trusted bool) error {
 			i := strings.LastIndex(f[1], ".")
 			g := &GhostField{Pkg: pkgPath, Type: f[1][:i], Name: f[1][i+1:], Sort: f[2], Mutable: len(f) > 3 && f[3] == "mutable"}
 			db.Ghosts[g.Type+"."+g.Name] = g
-		case "requires", "ensures", "decreases", "panics-if":
+		case "requires", "ensures", "decreases", "panics-if", "rejects":
 			if cur == nil {
 				return fmt.Errorf("%s:%d: clause outside block", path, ln+1)
 			}
